@@ -294,7 +294,8 @@ theorem cmdZAdd_inv (env : Env) {db : Db} (h : DbInv db) (args : List Bytes) : D
 
 def zsetCmd (name : Bytes) : Option Cmd := (zsetTable.find? fun p => ofStr p.1 == name).map (·.2)
 
-/-- one step of a program over the sorted-set commands (`exec` restricted to the family's table) -/
+/-- one step of a program over the sorted-set commands: `Exec.exec`'s dispatch (lower-cased name, table lookup) with the family's own
+    table `zsetTable`, which `Exec.cmdTable` includes; other command names leave the keyspace alone here -/
 def zstep (db : Db) (c : Env × List Bytes) : Db :=
   match c.2 with
   | [] => db
@@ -339,11 +340,6 @@ theorem zset_never_empty (prog : List (Env × List Bytes)) (k : Bytes) (t : ZT.T
     (h : getZ (prog.foldl zstep []) k = some (some t)) : t ≠ .nil ∧ ZT.members t ≠ [] := by
   have hi := getZ_inv (run_inv prog dbInv_nil) h
   exact ⟨hi.2, fun e => hi.2 (ZT.members_nil_iff t e hi.1)⟩
-
-/-- the dispatcher runs exactly these executors for the four command names -/
-theorem exec_is_zstep (env : Env) (db : Db) (name : Bytes) (rest : List Bytes) (cmd : Cmd)
-    (hc : zsetCmd (lower name) = some cmd) : zstep db (env, name :: rest) = (cmd env db (name :: rest)).2 := by
-  simp [zstep, hc]
 
 /-! ### ZRANGE -/
 
@@ -459,3 +455,16 @@ theorem rank_none (t : ZT.T) (m : Bytes) : zrankOf t m = none ↔ ZT.lookup t m 
   simp [List.find?_eq_none]
 
 end Exec
+
+/-! ### hypotheses are satisfiable; axioms -/
+namespace Exec
+example : DbInv (zstep [] ({ now := 0, fl := fun i => if i == 2 then some 0x3ff0000000000000 else none },
+    [ofStr "ZADD", ofStr "k", ofStr "1", ofStr "a"])) := zstep_inv dbInv_nil _
+example : ZT.Inv (ZT.setScore (ZT.setScore .nil [97] 3) [98] 3) := ZT.inv_setScore (ZT.inv_setScore ZT.inv_nil _ _) _ _
+end Exec
+
+#print axioms Exec.C12_invariant_every_state
+#print axioms Exec.zset_never_empty
+#print axioms Exec.rank_correct
+#print axioms Exec.zrange_window
+#print axioms ZT.mem_setScore
